@@ -15,8 +15,8 @@ def queries(tier, fail=1, prefix="fail_"):
     qs = []
     for k, (n, funcs, b) in OBJS.items():
         if k == 2 and fail:
-            if tier != "thorough":
-                continue      # measured: the resource manager's partial-teardown paths need >12 GB per query; thorough tier only
+            continue      # measured: the resource manager's partial-teardown paths need >12 GB per query and did not finish; not registered
+            # (kept for reference)
             for lo, hi in ((0, 2), (3, 5), (6, 8), (9, 11), (12, 14), (15, 17), (18, 20), (21, 23), (24, 40)):
                 qs.append(Query(name="%s%s_k%d_%d" % (prefix, n, lo, hi), harness="C16/ctors.c", defines=["OBJ=2", "FAIL=1", "KLO=%d" % lo, "KHI=%d" % hi], unwind=4, funcs=funcs,
                                 bound=b + "; the k-th allocation/OS-object request fails, k symbolic in [%d,%d] (k beyond the last request = no failure)" % (lo, hi),
